@@ -80,12 +80,17 @@ func VerifC06bExactlyOnce() {
 	order := vCase(3)
 	var log []string
 	inConnected := false
+	open := false
 	var em *connectionEventsEmitter
 	conn := &Conn{conn: &vC06tc{p: "peerA"}}
 	onConnected := func(c *Conn) {
 		inConnected = true
 		log = append(log, "connected-begin")
 		if order == 2 {
+			for i := 0; i < 10; i++ { // the emitter's loop has announced the connection by now
+				vYield()
+			}
+			open = false        // the swarm unlists the connection, then tells the emitter
 			go em.RemoveConn(c) // the connection is closed from inside the handler (asynchronously, as required)
 			for i := 0; i < 50; i++ {
 				vYield()
@@ -101,19 +106,38 @@ func VerifC06bExactlyOnce() {
 		time.Sleep(30 * time.Millisecond) // a slow handler: Close must wait for it
 		log = append(log, "disconnected")
 	}
-	em = newConnectionEventsEmitter(func(peer.ID) network.Connectedness { return network.NotConnected }, &vC06emitter{}, onConnected, onDisconnected)
+	// what the swarm would answer: the peer is connected exactly while its one connection is listed
+	pub := &vC06emitter{}
+	em = newConnectionEventsEmitter(func(peer.ID) network.Connectedness {
+		if open {
+			return network.Connected
+		}
+		return network.NotConnected
+	}, pub, onConnected, onDisconnected)
 	switch order {
 	case 0:
+		open = true
 		em.AddConn(conn)
+		open = false
 		em.RemoveConn(conn)
 	case 1:
+		// listed and unlisted again before the emitter has announced it
 		em.RemoveConn(conn)
 		vCover("parked-removal")
 		em.AddConn(conn)
 	case 2:
+		open = true
 		em.AddConn(conn)
 	}
 	em.Close()
+	for i := 1; i < len(pub.log); i++ {
+		vAssert(pub.log[i] != pub.log[i-1], "the published connectedness never repeats the same state twice in a row")
+	}
+	last := network.NotConnected
+	if len(pub.log) > 0 {
+		last = pub.log[len(pub.log)-1]
+	}
+	vAssert(last == network.NotConnected, "once activity has stopped the last published event equals the peer's actual connectedness (its only connection is gone) - also when the removal was parked behind a running Connected handler")
 	nc, nd, bad := 0, 0, 0
 	ce, d := -1, -1
 	for i, l := range log {
